@@ -179,6 +179,17 @@ def r6_2(model: Model, rep: Report) -> None:
             problems.append("no PopulationProbability construction found (anchor changed)")
         (rep.refuted if problems else rep.proven)("R6.2", construct(f, "population-tag"), "; ".join(sorted(set(problems))), loc(f), sample={"leaf constructions": n_leaf})
     # _line_6_helper: domain switch and declared experiment
+    if not model.has_func(f"{T}._line_6_helper"):
+        # the per-domain step is not a routine of its own: the same facts are part of R5.2's comparison of line 6 as a whole (C05)
+        from . import c05 as _c05
+        _sub = Report(rep.property_id, rep.tier)
+        _c05.r5_helpers(model, _sub)
+        for ob in _sub.obligations:
+            if ob.rule == "R5.2" and "gate-and-subquery" in ob.construct:
+                ob.rule = "R6.2"
+                ob.construct = ob.construct.replace("gate-and-subquery", "declared-experiment")
+                rep.obligations.append(ob)
+        return
     f = model.func(f"{T}._line_6_helper")
     ev = _tev(model)
     q = typed(ev, "query", ("cls", f"{T}.TRSOQuery"))
@@ -196,6 +207,9 @@ def r6_2(model: Model, rep: Report) -> None:
         for s in subterms(p.value):
             if s[0] == "setattr":
                 sets[s[1]] = s[2]
+            elif s[0] == "call" and isinstance(s[1], str) and s[1].split(".")[-1] == "replace" and len(s[2]) == 1 and s[3]:
+                for k_, v_ in s[3]:  # dataclasses.replace(obj, field=value): the same assignment
+                    sets.setdefault(k_, v_)
         if sets.get("domain") != d:
             problems.append("the sub-query is not tagged with the domain whose diagram was tested")
         act = sets.get("active_interventions")
